@@ -75,6 +75,13 @@ func isLockOp(ev *Ev) bool { _, ok := lockOps[ev.Label]; return ok }
 // mapOrigin returns the guarded-field load a map/slice value was read from.
 func loadedField(e *PPA, st *State, rv RV) (RV, *types.Var) {
 	for i := 0; i < 16; i++ {
+		// a load of x.f is recognised before store-to-load forwarding replaces it by the stored value
+		if u, ok := rv.V.(*ssa.UnOp); ok && u.Op == token.MUL {
+			if fa, ok := e.resolveAddr(st, RV{rv.F, u.X}).V.(*ssa.FieldAddr); ok {
+				ra := e.resolveAddr(st, RV{rv.F, u.X})
+				return e.Resolve(st, RV{ra.F, fa.X}), fieldOf(fa)
+			}
+		}
 		rv = e.Resolve(st, rv)
 		switch v := rv.V.(type) {
 		case *ssa.TypeAssert:
@@ -125,6 +132,54 @@ func newLockAudit(c *Ctx, pkg string, guards map[*types.Var]*types.Var, maxVisit
 	for _, f := range la.fns {
 		inPkg[f] = true
 	}
+	// helpers that release a lock their caller took (the reader->writer exchange split off into
+	// its own function): their effect on the caller's lockset only makes sense inlined
+	transfers := map[*ssa.Function]bool{}
+	for _, f := range la.fns {
+		if f.Parent() != nil || isExportedFn(f) {
+			continue
+		}
+		held := map[string]int{}
+		rel := false
+		// a cheap syntactic pre-test in block order is not enough (defer, branches): replay one
+		// enumeration without inlining and look for a release with nothing of that lock held
+		pe := &PPA{NoAuto: true, MaxVisits: 2, Watch: func(ev *Ev) bool { return isLockOp(ev) }}
+		pe.Run(f)
+		for i := range pe.Paths {
+			for k := range held {
+				delete(held, k)
+			}
+			for j := range pe.Paths[i].Trace {
+				ev := &pe.Paths[i].Trace[j]
+				key := ""
+				if len(ev.Args) > 0 {
+					key = Expr(ev.Args[0].V)
+				}
+				if lockOps[ev.Label][1] == '+' {
+					held[key]++
+				} else {
+					if held[key] == 0 {
+						rel = true
+					} else {
+						held[key]--
+					}
+				}
+			}
+		}
+		if rel {
+			transfers[f] = true
+		}
+	}
+	// such a helper is analysed only inlined into its callers
+	if len(transfers) > 0 {
+		var keep []*ssa.Function
+		for _, f := range la.fns {
+			if !transfers[f] {
+				keep = append(keep, f)
+			}
+		}
+		la.fns = keep
+	}
 	for _, f := range la.fns {
 		f := f
 		e := &PPA{
@@ -133,7 +188,7 @@ func newLockAudit(c *Ctx, pkg string, guards map[*types.Var]*types.Var, maxVisit
 			MaxVisits:  maxVisits,
 			Inline: func(fr *Frame, call ssa.CallInstruction, callee *ssa.Function) bool {
 				// closures of this function that are called or deferred here
-				return callee.Parent() == fr.Fn || (callee.Parent() != nil && callee.Parent() == fr.Fn.Parent())
+				return callee.Parent() == fr.Fn || (callee.Parent() != nil && callee.Parent() == fr.Fn.Parent()) || transfers[callee]
 			},
 		}
 		var mapEv func(ev *Ev) bool
@@ -721,10 +776,73 @@ func (la *LockAudit) Report(ruleFor func(kind string) string) {
 			c.OK(rule, fnName(x.Fn), x.Desc+" (exempt)", c.P.Pos(x.Pos), "exemption: "+why)
 			continue
 		}
+		// the same exemption when the closer is written as a method value instead of a literal: the
+		// function returned by initDone, whatever its form, reading subscribeDone
+		if strings.HasPrefix(x.Desc, "read of") || strings.HasPrefix(x.Desc, "entry point reaches guarded state") {
+			if initDone := c.P.Method("client", "ReconnectClient", "initDone"); initDone != nil && returnedFuncs(initDone)[x.Fn] && onlyReadsField(x.Fn, la.guards, "subscribeDone") {
+				c.OK(rule, fnName(x.Fn), x.Desc+" (exempt)", c.P.Pos(x.Pos), "exemption: "+lockExempt["(*client.ReconnectClient).initDone$1 | read of p.subscribeDone without mu (R) held on that object"])
+				continue
+			}
+		}
 		verdict := Violated
 		if x.Kind == "undecided" {
 			verdict = Undecided
 		}
 		c.add(rule, fnName(x.Fn), x.Desc, verdict, c.P.Pos(x.Pos), x.Path)
 	}
+}
+
+// returnedFuncs: the functions behind the func-typed values f returns (literals, named functions, bound methods).
+func returnedFuncs(f *ssa.Function) map[*ssa.Function]bool {
+	out := map[*ssa.Function]bool{}
+	instrs(f, func(in ssa.Instruction) {
+		ret, ok := in.(*ssa.Return)
+		if !ok {
+			return
+		}
+		for _, rv := range ret.Results {
+			for _, v := range append(storedValues(rv), rv) {
+				switch x := v.(type) {
+				case *ssa.MakeClosure:
+					fn := x.Fn.(*ssa.Function)
+					if strings.HasSuffix(fn.Name(), "$bound") {
+						for _, ci := range callsIn(fn) {
+							if m := staticCallee(ci.Common()); m != nil {
+								out[m] = true
+							}
+						}
+					}
+					out[fn] = true
+				case *ssa.Function:
+					out[x] = true
+				}
+			}
+		}
+	})
+	return out
+}
+
+// onlyReadsField: the only guarded field f touches is the named one, and it only reads it.
+func onlyReadsField(f *ssa.Function, guards map[*types.Var]*types.Var, name string) bool {
+	ok, n := true, 0
+	instrs(f, func(in ssa.Instruction) {
+		switch x := in.(type) {
+		case *ssa.UnOp:
+			if fl := fieldOf(x.X); fl != nil {
+				if _, g := guards[fl]; g {
+					n++
+					if vname(fl) != name {
+						ok = false
+					}
+				}
+			}
+		case *ssa.Store:
+			if fl := fieldOf(x.Addr); fl != nil {
+				if _, g := guards[fl]; g {
+					ok = false
+				}
+			}
+		}
+	})
+	return ok && n > 0
 }
